@@ -443,4 +443,51 @@ def arguments_untouched(repo: Repo) -> RuleRun:
 arguments_untouched.rule_id = "C19.ARGUMENTS-UNTOUCHED"
 
 
-RULES = [grid_roles, slice_roles, partition, merged_roles, assemble_walk, backport_local, delete_survives, tier_order, no_class_state, addressable, scalar_amount, stack_chain, arguments_untouched]
+def private_coordinates(repo: Repo) -> RuleRun:
+    """'... affects the block at that location and no other': after backport() every operation holds its own coordinates - a corner array shared by neighbouring operations is translated once per owner. Same rule as C09.PRIVATE-COORDINATES."""
+    from ..report import rebrand
+    from . import c09
+
+    return rebrand(c09.private_coordinates(repo), PROP, "C19.PRIVATE-COORDINATES")
+
+
+private_coordinates.rule_id = "C19.PRIVATE-COORDINATES"
+
+
+def no_shared_containers(repo: Repo) -> RuleRun:
+    """'core and shell lists partition the operations': two lists that are filled separately are two objects. A chained assignment
+    of one fresh container to several names (self.core = self.shell = []; dict.fromkeys(keys, {})) makes them the same object:
+    every face appended to the shell is in the core as well, all three axes of a slice cache share one inner dict. Expected count
+    zero; the matcher is exercised on an embedded example on every run."""
+    r = RuleRun(PROP, "C19.NO-SHARED-CONTAINERS", floor=1, what="no fresh mutable container is bound to several attributes / dictionary keys at once (a = b = [], dict.fromkeys(keys, {}))")
+
+    def fresh_mutable(v):
+        if isinstance(v, (ast.List, ast.Dict, ast.Set, ast.ListComp, ast.DictComp, ast.SetComp)):
+            return True
+        return isinstance(v, ast.Call) and (attr_chain(v.func) or "") in ("list", "dict", "set", "deque", "collections.deque", "defaultdict", "collections.defaultdict", "OrderedDict") 
+
+    def hits(tree):
+        out = []
+        for n_ in ast.walk(tree):
+            if isinstance(n_, ast.Assign) and len(n_.targets) > 1 and fresh_mutable(n_.value):
+                out.append((n_, "chained assignment of one container"))
+            if isinstance(n_, ast.Call) and (attr_chain(n_.func) or "").endswith("fromkeys") and len(n_.args) == 2 and fresh_mutable(n_.args[1]):
+                out.append((n_, "dict.fromkeys with one container as the value of every key"))
+        return out
+
+    probe = ast.parse("class A:\n    def __init__(self):\n        self.core = self.shell = []\n        self.cache = dict.fromkeys((0, 1, 2), {})\n        self.a = []\n        self.b = []")
+    if len(hits(probe)) != 2:
+        raise AnalysisError("C19.NO-SHARED-CONTAINERS: the matcher no longer recognises its embedded examples")
+    n = 0
+    for fn in sorted(repo.all_functions(), key=lambda f_: f_.qualname):
+        n += 1
+        for k, (node, why) in enumerate(hits(fn.node)):
+            r.bad(fn, f"{fn.qualname}: '{ast.unparse(node)[:80]}' - {why}: the names share ONE object, what is put into one of them is in all of them (core = shell: every operation is reported as both; one slice cache for all axes: the first slice taken with an index is returned for every axis)", node, key=f"shared#{k}")
+    r.ok(None, f"{n} functions scanned; matcher verified on its embedded examples", key="scan")
+    return r
+
+
+no_shared_containers.rule_id = "C19.NO-SHARED-CONTAINERS"
+
+
+RULES = [grid_roles, slice_roles, partition, merged_roles, assemble_walk, backport_local, delete_survives, tier_order, no_class_state, addressable, scalar_amount, stack_chain, arguments_untouched, private_coordinates, no_shared_containers]
